@@ -1213,3 +1213,147 @@ def gen_homogeneous_history(rng, rect_only=True, R=40):
     if not tags:
         return None, []
     return H.ops, tags
+
+
+# ------------------------------------------------------------------------------------------ C04: "corner reachable both ways round its obstacle"
+# Directed scene family for the (previous vertex, vertex) state of libavoid's A* (ANode; seeded change C04-4: PENDING lookup by vertex alone).
+# With a segment penalty the continuations validateBendPoint allows at a shape corner depend on the side the corner was reached from, so
+# the cheapest arrival at a corner need not be the one the optimal route uses.  Scenes are built so that this is likely (a convex obstacle T
+# with a far corner `a`; the target in the wedge that only the arrival from neighbour `c` may turn into; the source nearer to the other
+# neighbour `b`; walls whose near ends are hidden behind T and whose far ends are a long way round) and then SELECTED with the extracted
+# model: a scene is kept for a penalty iff taut_select reports different optima for route_taut's (previous vertex, vertex) search and for the
+# vertex-only search (Avoid/RefRouterVertexOnlyModel.v).
+def polys_separated(P, Q, gap=1):
+    """exact: some edge line of P or of Q has every vertex of the other polygon at distance >= gap on its outer side"""
+    for X, Y in ((P, Q), (Q, P)):
+        for a, b in edges(X):
+            l2 = (b[0] - a[0]) ** 2 + (b[1] - a[1]) ** 2
+            if all(cross(a, b, q) < 0 and cross(a, b, q) ** 2 >= gap * gap * l2 for q in Y):
+                return True
+    return False
+
+
+def point_clear(P, q, gap=1):
+    """q lies outside the convex polygon P, at distance >= gap from some edge line (outer side)"""
+    for a, b in edges(P):
+        c = cross(a, b, q)
+        if c < 0 and c * c >= gap * gap * ((b[0] - a[0]) ** 2 + (b[1] - a[1]) ** 2):
+            return True
+    return False
+
+
+def _unit(v):
+    n = math.hypot(v[0], v[1]) or 1.0
+    return (v[0] / n, v[1] / n)
+
+
+def _rnd(rng, lo, hi):
+    return lo + (hi - lo) * (rng.below(10001) / 10000.0)
+
+
+def _corner_wall(rng, P0, Dn, U, a, d, w):
+    """a convex quadrilateral ("wall", half-thickness w) through the point P0 lying across the travel direction Dn: its near end stops short
+    of the line a-d (the route round corner a must stay free), its far end is a long way off.  Integer vertices; None if degenerate."""
+    nx, ny = -Dn[1], Dn[0]
+    ad = _unit((d[0] - a[0], d[1] - a[1]))
+    sd = (P0[0] - a[0]) * (-ad[1]) + (P0[1] - a[1]) * ad[0]          # signed distance of P0 from the line a-d
+    comp = nx * (-ad[1]) + ny * ad[0]
+    if abs(comp) < 0.2 or abs(sd) < U / 50.0:
+        return None
+    if (comp > 0) == (sd > 0):
+        nx, ny = -nx, -ny; comp = -comp                               # (nx, ny) now points from P0 towards the line a-d
+    reach = abs(sd) / abs(comp)
+    near = reach * _rnd(rng, 0.5, 0.97)
+    far = _rnd(rng, 0.3, 2.5) * U
+    if rng.chance(1, 2):
+        c = [(P0[0] + nx * near - Dn[0] * w, P0[1] + ny * near - Dn[1] * w), (P0[0] + nx * near + Dn[0] * w, P0[1] + ny * near + Dn[1] * w),
+             (P0[0] - nx * far + Dn[0] * w, P0[1] - ny * far + Dn[1] * w), (P0[0] - nx * far - Dn[0] * w, P0[1] - ny * far - Dn[1] * w)]
+    else:
+        # axis-parallel rectangle over the same extent
+        if abs(Dn[0]) > abs(Dn[1]):
+            x0, x1 = P0[0] - w, P0[0] + w
+            y0, y1 = sorted((P0[1] + ny * near, P0[1] - ny * far))
+        else:
+            y0, y1 = P0[1] - w, P0[1] + w
+            x0, x1 = sorted((P0[0] + nx * near, P0[0] - nx * far))
+        c = [(x1, y0), (x1, y1), (x0, y1), (x0, y0)]
+    Pq = [(int(round(x)), int(round(y))) for x, y in c]
+    if convex_ccw(Pq):
+        return Pq
+    if convex_ccw(Pq[::-1]):
+        return Pq[::-1]
+    return None
+
+
+def gen_corner_scene(rng):
+    """-> (polys, [(s, d)]) or None (construction failed / quick exact pre-tests failed).  polys[0] is the obstacle T."""
+    U = rng.choice([40, 60, 100, 200, 400, 600])
+    tw = max(4, int(U * _rnd(rng, 0.12, 0.4))); th = max(4, int(U * _rnd(rng, 0.12, 0.4)))
+    ox, oy = rng.range(-U, U), rng.range(-U, U)
+    T = poly_in_box(rng, (ox, oy, ox + tw, oy + th), rng.choice([0, 0, 5, 5, 6, 6, 7, 8, 9, 9]))
+    n = len(T)
+    i = rng.below(n)
+    a = T[i]
+    b, c = (T[i - 1], T[(i + 1) % n]) if rng.chance(1, 2) else (T[(i + 1) % n], T[i - 1])     # b: the cheap side, c: the side that may turn on
+    # target: seen from a, inside the wedge between the extension of c->a and the direction a->b (only the arrival from c wraps the corner)
+    e1 = _unit((a[0] - c[0], a[1] - c[1])); e2 = _unit((b[0] - a[0], b[1] - a[1]))
+    t = _rnd(rng, 0.08, 0.92)
+    dv = _unit((e1[0] * (1 - t) + e2[0] * t, e1[1] * (1 - t) + e2[1] * t))
+    r = U * _rnd(rng, 0.5, 2.0)
+    d = (int(round(a[0] + dv[0] * r)), int(round(a[1] + dv[1] * r)))
+    # source: in the wedge of corner a beyond T (a is the one corner of T it cannot see), nearer to b
+    al = _rnd(rng, 0.7, 3.0); be = al * _rnd(rng, 0.2, 1.0)
+    s = (int(round(a[0] + al * (b[0] - a[0]) + be * (c[0] - a[0]))), int(round(a[1] + al * (b[1] - a[1]) + be * (c[1] - a[1]))))
+    polys = [T]
+    thin = max(1.0, U * _rnd(rng, 0.02, 0.07))
+    thick = rng.chance(1, 2)
+    frm_near = rng.chance(3, 4)
+    ad = _unit((d[0] - a[0], d[1] - a[1]))
+    frm = b
+    for k in range(rng.choice([1, 2, 2, 2, 3])):
+        tt = _rnd(rng, 0.15, 0.75)
+        W = _corner_wall(rng, (frm[0] + (d[0] - frm[0]) * tt, frm[1] + (d[1] - frm[1]) * tt), _unit((d[0] - frm[0], d[1] - frm[1])), U, a, d,
+                         thin * (rng.range(2, 5) if thick else 1))
+        if W is None:
+            return None
+        polys.append(W)
+        # the next wall stands across the way from this wall's near (or far) end to the target
+        frm = (min if frm_near else max)(W, key=lambda p: abs((p[0] - a[0]) * (-ad[1]) + (p[1] - a[1]) * ad[0]))
+    if rng.chance(1, 4):
+        x = ox + rng.range(-U, U); y = oy + rng.range(-U, U)
+        polys.append(poly_in_box(rng, (x, y, x + rng.range(2, max(3, U // 4)), y + rng.range(2, max(3, U // 4))), None))
+    for x in range(len(polys)):
+        for y in range(x + 1, len(polys)):
+            if not polys_separated(polys[x], polys[y], 1):
+                return None
+    if s == d or not all(point_clear(P, s, 1) and point_clear(P, d, 1) for P in polys):
+        return None
+
+    def vis(p, q):
+        return not any(through_interior(P, p, q) for P in polys)
+    # necessary for the two searches to differ: corner a sees the target, the source sees b, the straight line is blocked
+    if not vis(a, d) or not vis(s, b) or vis(s, d):
+        return None
+    return polys, [(s, d)]
+
+
+def q_sel(pens, shapes, s, d):
+    return 'TAUTSEL %d %s %s %s %s' % (len(pens), ' '.join(str(int(p) * PICO) for p in pens), tok_shapes(shapes), tok_pt(s), tok_pt(d))
+
+
+def parse_sel(a):
+    """'cP cV cP cV ..' -> [(cost_pico | None, cost_pico | None)] per penalty: route_taut's search, vertex-only search"""
+    t = a.split()
+    f = lambda x: None if x == '-' else int(x)
+    return [(f(t[2 * i]), f(t[2 * i + 1])) for i in range(len(t) // 2)]
+
+
+def run_driver_parallel(exe, queries, jobs=4, timeout=1200):
+    """the driver answers line by line without state: split the queries over `jobs` processes"""
+    if len(queries) < 4 * jobs:
+        return run_driver(exe, queries, timeout)
+    from concurrent.futures import ThreadPoolExecutor
+    k = (len(queries) + jobs - 1) // jobs
+    chunks = [queries[i:i + k] for i in range(0, len(queries), k)]
+    with ThreadPoolExecutor(jobs) as ex:
+        return [a for r in ex.map(lambda ch: run_driver(exe, ch, timeout), chunks) for a in r]
